@@ -1,5 +1,4 @@
-import BR.Model.Conc
-import BR.Lemmas.DiskRes
+import BR.Lemmas.ConcDir
 /-!
 # C07 — concurrent requests see whole values and never corrupt index or accounting (partial)
 
@@ -10,6 +9,9 @@ being corrupted at arbitrary moments.  For **every schedule** (any list of steps
 * `conc_accounting` — the index invariant of C03 holds after every BR.Conc.step, and the reserved total is
   exactly the sum of the reservations held by the uploads in flight; hence at quiescence (no
   upload in flight) nothing stays reserved and the accounted size is the sum of the entries;
+* `conc_directory`, `conc_quiescent_directory` — the files on disk are exactly the files of the
+  tracked entries plus the completed files of uploads that have not committed; at quiescence
+  directory = index (C04 under interleavings);
 * `read_whole_value` — every read that returns data returns the complete bytes of one upload to the
   same key whose file had been completely written (never a torn, mixed or truncated value);
 * `step_total` — every BR.Conc.step is a total function of the state: no schedule blocks a request
@@ -18,435 +20,10 @@ being corrupted at arbitrary moments.  For **every schedule** (any list of steps
 **Partial**: the model assumes each lock region is atomic, that memory is touched only inside lock
 regions, that an open file keeps its content after being unlinked, and that `tempfile.Create`
 never returns a name in use.  Data races are looked for by the thorough tier (`-race`), not proved
-absent.  The directory invariant of C04 under interleavings is checked by the scheduled harness
-(quiescence oracles), proved only for sequential histories (M4).
+absent.
 -/
 namespace BR.Props.C07
 open BR.Conc BR.Lru
-
-/-- `c` is the complete content of an upload to `key` whose file has been written -/
-def Src (s : State) (key : String) (c : List Nat) : Prop :=
-  ∃ (i : Nat) (p : PutT), s.puts[i]? = some p ∧ p.key = key ∧ p.data = c ∧ p.wrote = true
-
-structure CInv (s : State) : Prop where
-  lru : Inv s.lru
-  res : s.lru.res = (s.puts.map PutT.held).sum
-  pos : ∀ p ∈ s.puts, 0 < p.size
-  files : ∀ f ∈ s.files, Src s f.key f.content
-  reads : ∀ g ∈ s.gets, ∀ c, g.pc = .done (some c) → Src s g.key c
-
-/-! ### list bookkeeping -/
-
-theorem sum_set {α} (f : α → Int) : ∀ (l : List α) (i : Nat) (old x : α), l[i]? = some old →
-    ((l.set i x).map f).sum = (l.map f).sum - f old + f x := by
-  intro l
-  induction l with
-  | nil => intro i old x h; cases h
-  | cons a as ih =>
-    intro i old x h
-    cases i with
-    | zero =>
-      simp only [List.getElem?_cons_zero, Option.some.injEq] at h
-      subst h
-      simp only [List.set_cons_zero, List.map_cons, List.sum_cons]; omega
-    | succ k =>
-      simp only [List.getElem?_cons_succ] at h
-      simp only [List.set_cons_succ, List.map_cons, List.sum_cons, ih k old x h]; omega
-
-theorem held_nonneg (p : PutT) : 0 ≤ p.held := by
-  unfold PutT.held PutT.size
-  split <;> omega
-
-theorem le_sum_held : ∀ (l : List PutT) (i : Nat) (p : PutT), l[i]? = some p → p.held ≤ (l.map PutT.held).sum := by
-  intro l
-  induction l with
-  | nil => intro i p h; cases h
-  | cons a as ih =>
-    intro i p h
-    have hs : 0 ≤ (as.map PutT.held).sum := by
-      clear ih h
-      induction as with
-      | nil => simp
-      | cons b bs ihb => simp only [List.map_cons, List.sum_cons]; have := held_nonneg b; omega
-    cases i with
-    | zero =>
-      simp only [List.getElem?_cons_zero, Option.some.injEq] at h
-      subst h
-      simp only [List.map_cons, List.sum_cons]; omega
-    | succ k =>
-      simp only [List.getElem?_cons_succ] at h
-      have := ih k p h
-      have := held_nonneg a
-      simp only [List.map_cons, List.sum_cons]; omega
-
-/-- advancing upload `i` (same key and data, `wrote` not lost) keeps every source -/
-theorem src_setPut {s : State} {i : Nat} {p p' : PutT} (hi : s.puts[i]? = some p)
-    (hk : p'.key = p.key) (hd : p'.data = p.data) (hw : p.wrote = true → p'.wrote = true)
-    {key : String} {c : List Nat} (h : Src s key c) (s' : State) (hs : s'.puts = s.puts.set i p') : Src s' key c := by
-  obtain ⟨i0, p0, h0, hk0, hd0, hw0⟩ := h
-  by_cases hii : i0 = i
-  · subst hii
-    rw [hi] at h0
-    cases h0
-    refine ⟨i0, p', ?_, by rw [hk, hk0], by rw [hd, hd0], hw hw0⟩
-    rw [hs, List.getElem?_set]
-    have : i0 < s.puts.length := by
-      rcases Nat.lt_or_ge i0 s.puts.length with h | h
-      · exact h
-      · rw [List.getElem?_eq_none h] at hi; cases hi
-    simp [this]
-  · refine ⟨i0, p0, ?_, hk0, hd0, hw0⟩
-    rw [hs, List.getElem?_set]
-    have : ¬ i = i0 := fun h => hii h.symm
-    simp [this, h0]
-
-theorem src_samePuts {s s' : State} (hs : s'.puts = s.puts) {key : String} {c : List Nat} (h : Src s key c) :
-    Src s' key c := by
-  obtain ⟨i, p, h0, hk, hd, hw⟩ := h
-  exact ⟨i, p, by rw [hs]; exact h0, hk, hd, hw⟩
-
-theorem mem_set_cases {α} {l : List α} {i : Nat} {x y : α} (h : y ∈ l.set i x) : y ∈ l ∨ y = x :=
-  (List.mem_or_eq_of_mem_set h)
-
-theorem fileOf_spec {fs : List File} {key rnd : String} {f : File} (h : fileOf fs key rnd = some f) :
-    f ∈ fs ∧ f.key = key := by
-  unfold fileOf at h
-  refine ⟨List.mem_of_find?_eq_some h, ?_⟩
-  have := List.find?_some h
-  simp only [Bool.and_eq_true, beq_iff_eq] at this
-  exact this.1
-
-/-! ### one BR.Conc.step -/
-
-/-- updating read `j` to a state that returns no data, with an index that keeps the invariant -/
-theorem cinv_setGet_nodata {s : State} (h : CInv s) (l : Lru) (hl : Inv l) (hr : l.res = s.lru.res) (j : Nat) (g' : GetT)
-    (hnd : ∀ c, g'.pc ≠ .done (some c)) : CInv (setGet { s with lru := l } j g') := by
-  refine ⟨hl, by simpa [setGet] using hr.trans h.res, h.pos, ?_, ?_⟩
-  · intro f hf; exact src_samePuts rfl (h.files f hf)
-  · intro g hg c hc
-    rcases mem_set_cases hg with hg | hg
-    · exact src_samePuts rfl (h.reads g hg c hc)
-    · subst hg; exact absurd hc (hnd c)
-
-/-- updating read `j` with the result of opening file `f` of its key -/
-theorem cinv_setGet_open {s : State} (h : CInv s) (l : Lru) (hl : Inv l) (hr : l.res = s.lru.res) (j : Nat) (g : GetT)
-    (f : File) (e : Elem) (hf : f ∈ s.files) (hk : f.key = g.key) :
-    CInv (setGet { s with lru := l } j { g with pc := openResult f e }) := by
-  refine ⟨hl, by simpa [setGet] using hr.trans h.res, h.pos, ?_, ?_⟩
-  · intro f' hf'; exact src_samePuts rfl (h.files f' hf')
-  · intro g' hg c hc
-    rcases mem_set_cases hg with hg | hg
-    · exact src_samePuts rfl (h.reads g' hg c hc)
-    · subst hg
-      simp only [openResult] at hc
-      split at hc
-      · cases hc
-      · simp only [GetPc.done.injEq, Option.some.injEq] at hc
-        subst hc
-        have := h.files f hf
-        rw [hk] at this
-        exact src_samePuts rfl this
-
-theorem step_inv (s : State) (st : Step) (h : CInv s) : CInv (BR.Conc.step s st) := by
-  cases st with
-  | putReserve i =>
-    simp only [BR.Conc.step]
-    cases hp : s.puts[i]? with
-    | none => exact h
-    | some p =>
-      simp only
-      have hmem : p ∈ s.puts := List.mem_of_getElem? hp
-      have hpos := h.pos p hmem
-      cases hpc : p.pc with
-      | reserved => exact h
-      | written => exact h
-      | done b => exact h
-      | idle =>
-        simp only
-        have hr := BR.Disk.res_reserve h.lru p.size hpos
-        have hi := (inv_reserve h.lru p.size).1
-        have hheld : p.held = 0 := by simp [PutT.held, hpc]
-        cases hres : reserve s.lru p.size with
-        | mk l o =>
-          rw [hres] at hr hi
-          simp only at hr hi
-          cases o with
-          | none =>
-            simp only
-            refine ⟨hi, ?_, ?_, ?_, ?_⟩
-            · simp only [setPut]
-              rw [sum_set PutT.held _ _ p _ hp, hr.1 rfl, h.res, hheld]
-              simp [PutT.held, PutT.size]
-            · intro q hq
-              rcases mem_set_cases hq with hq | hq
-              · exact h.pos q hq
-              · subst hq; exact hpos
-            · intro f hf
-              exact src_setPut (p' := { p with pc := .reserved }) hp rfl rfl (by simp [PutT.wrote, hpc]) (h.files f hf) _ rfl
-            · intro g hg c hc
-              exact src_setPut (p' := { p with pc := .reserved }) hp rfl rfl (by simp [PutT.wrote, hpc]) (h.reads g hg c hc) _ rfl
-          | some e =>
-            simp only
-            have hl : l = s.lru := hr.2 e rfl
-            subst hl
-            refine ⟨h.lru, ?_, ?_, ?_, ?_⟩
-            · simp only [setPut]
-              rw [sum_set PutT.held _ _ p _ hp, h.res, hheld]
-              simp [PutT.held]
-            · intro q hq
-              rcases mem_set_cases hq with hq | hq
-              · exact h.pos q hq
-              · subst hq; exact hpos
-            · intro f hf
-              exact src_setPut (p' := { p with pc := .done false }) hp rfl rfl (by simp [PutT.wrote, hpc]) (h.files f hf) _ rfl
-            · intro g hg c hc
-              exact src_setPut (p' := { p with pc := .done false }) hp rfl rfl (by simp [PutT.wrote, hpc]) (h.reads g hg c hc) _ rfl
-  | putWrite i fault =>
-    simp only [BR.Conc.step]
-    cases hp : s.puts[i]? with
-    | none => exact h
-    | some p =>
-      simp only
-      have hmem : p ∈ s.puts := List.mem_of_getElem? hp
-      have hpos := h.pos p hmem
-      cases hpc : p.pc with
-      | idle => exact h
-      | written => exact h
-      | done b => exact h
-      | reserved =>
-        simp only
-        have hheld : p.held = p.size := by simp [PutT.held, hpc]
-        have hle : p.size ≤ s.lru.res := by
-          have := le_sum_held s.puts i p hp
-          rw [h.res]; omega
-        cases fault with
-        | true =>
-          simp only [if_true]
-          refine ⟨(BR.Disk.inv_release h.lru p.size).1, ?_, ?_, ?_, ?_⟩
-          · simp only [setPut]
-            rw [sum_set PutT.held _ _ p _ hp, BR.Disk.res_release h.lru p.size hle, h.res, hheld]
-            simp [PutT.held, hpos]
-          · intro q hq
-            rcases mem_set_cases hq with hq | hq
-            · exact h.pos q hq
-            · subst hq; exact hpos
-          · intro f hf
-            exact src_setPut (p' := { p with pc := .done false }) hp rfl rfl (by simp [PutT.wrote, hpc]) (h.files f hf) _ rfl
-          · intro g hg c hc
-            exact src_setPut (p' := { p with pc := .done false }) hp rfl rfl (by simp [PutT.wrote, hpc]) (h.reads g hg c hc) _ rfl
-        | false =>
-          simp only [Bool.false_eq_true, if_false]
-          refine ⟨h.lru, ?_, ?_, ?_, ?_⟩
-          · simp only [setPut]
-            rw [sum_set PutT.held _ _ p _ hp, h.res, hheld]
-            have : PutT.held { p with pc := PutPc.written } = p.size := rfl
-            rw [this]; omega
-          · intro q hq
-            rcases mem_set_cases hq with hq | hq
-            · exact h.pos q hq
-            · subst hq; exact hpos
-          · intro f hf
-            simp only [setPut, List.mem_append, List.mem_singleton] at hf
-            rcases hf with hf | hf
-            · exact src_setPut (p' := { p with pc := .written }) hp rfl rfl (by simp [PutT.wrote, hpc]) (h.files f hf) _ rfl
-            · subst hf
-              refine ⟨i, { p with pc := .written }, ?_, rfl, rfl, rfl⟩
-              simp only [setPut, List.getElem?_set]
-              have : i < s.puts.length := by
-                rcases Nat.lt_or_ge i s.puts.length with h' | h'
-                · exact h'
-                · rw [List.getElem?_eq_none h'] at hp; cases hp
-              simp [this]
-          · intro g hg c hc
-            exact src_setPut (p' := { p with pc := .written }) hp rfl rfl (by simp [PutT.wrote, hpc]) (h.reads g hg c hc) _ rfl
-  | putCommit i =>
-    simp only [BR.Conc.step]
-    cases hp : s.puts[i]? with
-    | none => exact h
-    | some p =>
-      simp only
-      have hmem : p ∈ s.puts := List.mem_of_getElem? hp
-      have hpos := h.pos p hmem
-      cases hpc : p.pc with
-      | idle => exact h
-      | reserved => exact h
-      | done b => exact h
-      | written =>
-        simp only
-        have hheld : p.held = p.size := by simp [PutT.held, hpc]
-        have hle : p.size ≤ s.lru.res := by
-          have := le_sum_held s.puts i p hp
-          rw [h.res]; omega
-        have hv : 0 ≤ (itemOf p i).sizeOnDisk ∧ 0 ≤ (itemOf p i).size := by
-          simp only [itemOf]; omega
-        have hci := (BR.Disk.commit_spec h.lru p.key p.size (itemOf p i) hv).1
-        have hcr := BR.Disk.res_commit h.lru p.key p.size (itemOf p i) hle
-        have hsum : ∀ b, ((s.puts.set i { p with pc := .done b }).map PutT.held).sum = s.lru.res - p.size := by
-          intro b
-          rw [sum_set PutT.held _ _ p _ hp, h.res, hheld]
-          simp [PutT.held]
-        cases hc : BR.Disk.commit s.lru p.key p.size (itemOf p i) with
-        | mk l code =>
-          rw [hc] at hci hcr
-          simp only at hci hcr
-          have hres' : l.res = s.lru.res - p.size := by rw [hcr]; simp [hpos]
-          have hcommon : ∀ (b : Bool) (fs : List File), (∀ f ∈ fs, f ∈ s.files) →
-              CInv (setPut { s with lru := l, files := fs } i { p with pc := .done b }) := by
-            intro b fs hfs
-            refine ⟨hci, ?_, ?_, ?_, ?_⟩
-            · simp only [setPut]; rw [hsum b, hres']
-            · intro q hq
-              rcases mem_set_cases hq with hq | hq
-              · exact h.pos q hq
-              · subst hq; exact hpos
-            · intro f hf
-              exact src_setPut (p' := { p with pc := .done b }) hp rfl rfl (by simp [PutT.wrote]) (h.files f (hfs f hf)) _ rfl
-            · intro g hg c hc
-              exact src_setPut (p' := { p with pc := .done b }) hp rfl rfl (by simp [PutT.wrote]) (h.reads g hg c hc) _ rfl
-          cases code with
-          | ok => exact hcommon true s.files (fun f hf => hf)
-          | miss => exact hcommon false _ (fun f hf => (List.mem_filter.mp hf).1)
-          | e400 => exact hcommon false _ (fun f hf => (List.mem_filter.mp hf).1)
-          | e500 => exact hcommon false _ (fun f hf => (List.mem_filter.mp hf).1)
-          | e507 => exact hcommon false _ (fun f hf => (List.mem_filter.mp hf).1)
-          | stuck => exact hcommon false _ (fun f hf => (List.mem_filter.mp hf).1)
-  | getLookup j =>
-    simp only [BR.Conc.step]
-    cases hg : s.gets[j]? with
-    | none => exact h
-    | some g =>
-      simp only
-      cases hpc : g.pc with
-      | looked e => exact h
-      | failed e => exact h
-      | done r => exact h
-      | idle =>
-        simp only
-        have hi := inv_get h.lru g.key
-        have hr := BR.Disk.res_get s.lru g.key
-        cases hget : Lru.get s.lru g.key with
-        | mk l o =>
-          rw [hget] at hi hr
-          cases o with
-          | some e => exact cinv_setGet_nodata h l hi hr j _ (by intro c hc; cases hc)
-          | none => exact cinv_setGet_nodata h l hi hr j _ (by intro c hc; cases hc)
-  | getOpen j =>
-    simp only [BR.Conc.step]
-    cases hg : s.gets[j]? with
-    | none => exact h
-    | some g =>
-      simp only
-      cases hpc : g.pc with
-      | idle => exact h
-      | failed e => exact h
-      | done r => exact h
-      | looked e =>
-        simp only
-        cases hf : fileOf s.files g.key e.val.random with
-        | some f =>
-          obtain ⟨hm, hk⟩ := fileOf_spec hf
-          have := cinv_setGet_open h s.lru h.lru rfl j g f e hm hk
-          simpa using this
-        | none =>
-          simp only
-          have hi := inv_get h.lru g.key
-          have hr := BR.Disk.res_get s.lru g.key
-          cases hget : Lru.get s.lru g.key with
-          | mk l o =>
-            rw [hget] at hi hr
-            cases o with
-            | none => exact cinv_setGet_nodata h l hi hr j _ (by intro c hc; cases hc)
-            | some e2 =>
-              simp only
-              cases hf2 : fileOf s.files g.key e2.val.random with
-              | some f2 =>
-                obtain ⟨hm, hk⟩ := fileOf_spec hf2
-                exact cinv_setGet_open h l hi hr j g f2 e2 hm hk
-              | none =>
-                exact cinv_setGet_nodata h (removeElemId l e2.id) (inv_removeElemId hi e2.id)
-                  ((BR.Disk.res_removeElemId l e2.id).trans hr) j _ (by intro c hc; cases hc)
-  | getRemove j =>
-    simp only [BR.Conc.step]
-    cases hg : s.gets[j]? with
-    | none => exact h
-    | some g =>
-      simp only
-      cases hpc : g.pc with
-      | idle => exact h
-      | looked e => exact h
-      | done r => exact h
-      | failed e =>
-        have hi : Inv (removeIfSame s.lru e) := by
-          unfold removeIfSame
-          split
-          · split
-            · exact inv_removeElemId h.lru e.id
-            · exact h.lru
-          · exact h.lru
-        have hr : (removeIfSame s.lru e).res = s.lru.res := by
-          unfold removeIfSame
-          split
-          · split
-            · exact BR.Disk.res_removeElemId s.lru e.id
-            · rfl
-          · rfl
-        exact cinv_setGet_nodata h (removeIfSame s.lru e) hi hr j _ (by intro c hc; cases hc)
-  | unlink =>
-    simp only [BR.Conc.step]
-    have hi := inv_drainOne h.lru
-    have hr : (drainOne s.lru).1.res = s.lru.res := by unfold drainOne; split <;> rfl
-    cases hd : drainOne s.lru with
-    | mk l o =>
-      rw [hd] at hi hr
-      cases o with
-      | none =>
-        exact ⟨hi, hr.trans h.res, h.pos, fun f hf => src_samePuts rfl (h.files f hf),
-          fun g hg c hc => src_samePuts rfl (h.reads g hg c hc)⟩
-      | some p =>
-        exact ⟨hi, hr.trans h.res, h.pos,
-          fun f hf => src_samePuts rfl (h.files f (List.mem_filter.mp hf).1),
-          fun g hg c hc => src_samePuts rfl (h.reads g hg c hc)⟩
-  | corrupt key rnd =>
-    simp only [BR.Conc.step]
-    refine ⟨h.lru, h.res, h.pos, ?_, fun g hg c hc => src_samePuts rfl (h.reads g hg c hc)⟩
-    intro f hf
-    obtain ⟨f0, hf0, rfl⟩ := List.mem_map.mp hf
-    have := h.files f0 hf0
-    split <;> exact src_samePuts rfl this
-
-/-! ### every schedule -/
-
-theorem run_inv (s : State) (sched : List Step) (h : CInv s) : CInv (BR.Conc.run s sched) := by
-  unfold BR.Conc.run
-  induction sched generalizing s with
-  | nil => exact h
-  | cons st rest ih => exact ih (BR.Conc.step s st) (step_inv s st h)
-
-theorem init_inv (M H : Int) (h0 : 0 ≤ M) (h1 : M < 9223372036854775808) (puts : List (String × List Nat))
-    (gets : List String) (hpos : ∀ p ∈ puts, 0 < p.2.length) : CInv (initState M H puts gets) := by
-  have hsum : ∀ (l : List (String × List Nat)),
-      ((l.map (fun p => (⟨p.1, p.2, .idle⟩ : PutT))).map PutT.held).sum = 0 := by
-    intro l
-    induction l with
-    | nil => rfl
-    | cons a as ih =>
-      simp only [List.map_cons, List.sum_cons, ih]
-      rfl
-  refine ⟨inv_init M H h0 h1, ?_, ?_, ?_, ?_⟩
-  · show (0 : Int) = _
-    exact (hsum puts).symm
-  · intro p hp
-    simp only [initState, List.mem_map] at hp
-    obtain ⟨q, hq, rfl⟩ := hp
-    simp only [PutT.size]
-    have := hpos q hq
-    omega
-  · intro f hf
-    simp [initState] at hf
-  · intro g hg c hc
-    simp only [initState, List.mem_map] at hg
-    obtain ⟨k, _, rfl⟩ := hg
-    cases hc
 
 /-- **accounting under every interleaving**: after any schedule the index invariant of C03 holds
 and exactly the uploads in flight hold reservations -/
@@ -481,6 +58,53 @@ theorem conc_quiescent_accounting (M H : Int) (h0 : 0 ≤ M) (h1 : M < 922337203
   refine ⟨hres, ?_, h.lru.cur_le⟩
   have := h.lru.cur_eq
   omega
+
+/-- **the directory under every interleaving**: after any schedule every file on disk is the file
+of an entry the index still tracks (indexed, or queued for the remover) or the completed file of an
+upload that has not committed yet; every tracked entry has its file; no two files and no two
+tracked entries share a name.  (C04 for concurrent histories, in model M5.) -/
+theorem conc_directory (M H : Int) (h0 : 0 ≤ M) (h1 : M < 9223372036854775808) (puts : List (String × List Nat))
+    (gets : List String) (hpos : ∀ p ∈ puts, 0 < p.2.length) (sched : List Step) :
+    FInv (BR.Conc.run (initState M H puts gets) sched) :=
+  (run_finv M H h0 h1 puts gets hpos sched).2
+
+/-- at quiescence — no upload between write and commit, removal queue empty — the files on disk are
+exactly the files of the indexed entries, one each -/
+theorem conc_quiescent_directory (M H : Int) (h0 : 0 ≤ M) (h1 : M < 9223372036854775808)
+    (puts : List (String × List Nat)) (gets : List String) (hpos : ∀ p ∈ puts, 0 < p.2.length) (sched : List Step)
+    (hq : ∀ p ∈ (BR.Conc.run (initState M H puts gets) sched).puts, p.pc ≠ .written)
+    (hqueue : (BR.Conc.run (initState M H puts gets) sched).lru.queue = []) :
+    ((BR.Conc.run (initState M H puts gets) sched).files.map (fun f => (f.key, f.rnd))).Perm
+      ((BR.Conc.run (initState M H puts gets) sched).lru.order.map (fun e => (e.key, e.val.random))) := by
+  have h := (run_finv M H h0 h1 puts gets hpos sched).2
+  generalize BR.Conc.run (initState M H puts gets) sched = s at h hq hqueue
+  have htr : tracked s.lru = qOf s.lru.order := by simp [tracked, hqueue]
+  have nodup_of_snd : ∀ {α : Type} (l : List α) (f : α → String × String),
+      (l.map (fun a => (f a).2)).Nodup → (l.map f).Nodup := by
+    intro α l f hh
+    have : ((l.map f).map Prod.snd).Nodup := by simpa [List.map_map, Function.comp_def] using hh
+    exact List.Pairwise.of_map Prod.snd (fun a b hne hab => hne (by rw [hab])) this
+  have hn1 : (s.files.map (fun f => (f.key, f.rnd))).Nodup := nodup_of_snd _ _ h.f_nodup
+  have hn2 : (s.lru.order.map (fun e => (e.key, e.val.random))).Nodup := by
+    apply nodup_of_snd
+    have := h.t_nodup
+    rw [htr] at this
+    simpa [qOf, List.map_map, Function.comp_def] using this
+  rw [List.perm_ext_iff_of_nodup hn1 hn2]
+  intro a
+  constructor
+  · intro ha
+    obtain ⟨f, hf, rfl⟩ := List.mem_map.mp ha
+    rcases h.f_cover f hf with ⟨q, hqm, hk, hr⟩ | ⟨i, p, hpi, _, _, hpc⟩
+    · rw [htr] at hqm
+      obtain ⟨e, he, rfl⟩ := List.mem_map.mp hqm
+      exact List.mem_map.mpr ⟨e, he, by simp [← hk, ← hr]⟩
+    · exact absurd hpc (hq p (List.mem_of_getElem? hpi))
+  · intro ha
+    obtain ⟨e, he, rfl⟩ := List.mem_map.mp ha
+    have hqm : (e.key, e.val) ∈ tracked s.lru := by rw [htr]; exact List.mem_map.mpr ⟨e, he, rfl⟩
+    obtain ⟨f, hf, hk, hr⟩ := h.t_file _ hqm
+    exact List.mem_map.mpr ⟨f, hf, by simp [hk, hr]⟩
 
 /-- **every read returns a whole value**: under every schedule, with files being corrupted at any
 time, a read that returns data returns the complete bytes of one upload to the same key whose file
@@ -540,5 +164,7 @@ example : (f23.gets.map (fun g => match g.pc with | .done r => r | _ => none)) =
 #print axioms conc_accounting
 #print axioms conc_quiescent_accounting
 #print axioms read_whole_value
+#print axioms conc_directory
+#print axioms conc_quiescent_directory
 #print axioms put_step_keeps_identity
 end BR.Props.C07
